@@ -229,6 +229,9 @@ class Compiler:
         whose RETURN opcode discards the operands of the frame itself.
         """
         contexts = self.loop_stack
+        # Operands a finally block finds on the stack: the return value, and the
+        # operands of the contexts already left when they were not dropped
+        waiting = pending_operands
         for i in range(len(contexts) - 1, -1, -1):
             ctx = contexts[i]
             if ctx is target:
@@ -239,14 +242,14 @@ class Compiler:
                 if ctx.finalizer is not None:
                     # The finally block is code of the enclosing contexts: a
                     # break or return inside it must not run it again, and has
-                    # to drop a return value that is waiting on the stack
+                    # to drop what is waiting on the stack
                     self.loop_stack = contexts[:i]
-                    if pending_operands:
+                    if waiting:
                         self.loop_stack.append(
                             LoopContext(
                                 is_loop=False,
                                 is_try=True,
-                                stack_items=pending_operands,
+                                stack_items=waiting,
                             )
                         )
                     self._compile_statement(ctx.finalizer)
@@ -254,6 +257,8 @@ class Compiler:
             if drop_operands:
                 for _ in range(ctx.stack_items):
                     self._emit(OpCode.POP)
+            else:
+                waiting += ctx.stack_items
 
     def _compile_rethrowing_finalizer(self, finalizer: Node) -> None:
         """Compile the copy of a finally block that runs when an exception passes
